@@ -17,6 +17,7 @@ import PgBifrost.Driver.Parser
 import PgBifrost.Driver.Sys
 import PgBifrost.Driver.Backoff
 import PgBifrost.Driver.Runner
+import PgBifrost.Driver.Plumbing
 /-! `bfmodel`: line-protocol driver for the executable models (core Lean only, so it links).
 One request line in, one answer line out. First word selects the model. -/
 open PgBifrost
@@ -80,6 +81,7 @@ def dispatch (st : DriverState) (line : String) : DriverState × String :=
   | "sys" :: args => let (s, out) := Driver.Sys.handle st.sys args; ({ st with sys := s }, out)
   | "runner" :: args => (st, Driver.Runner.handle args)
   | "clientstop" :: args => (st, Driver.Runner.clientStop args)
+  | "plumbing" :: args => (st, Driver.Plumbing.handle args)
   | "retrypolicy" :: args => let (s, out) := Driver.Backoff.handle st.backoff args; ({ st with backoff := s }, out)
   | ["ping"] => (st, "pong")
   | _ => (st, "bad-op")
